@@ -22,7 +22,7 @@ def run(ctx):
     thorough = ctx.thorough()
     proved = ctx.prove()
     ctx.trusted += F.TRUSTED
-    p = F.Pipeline(ctx, "C03", n_gen=9000 if thorough else 260, n_random=6 if thorough else 3)
+    p = F.Pipeline(ctx, "C03", n_gen=9000 if thorough else 420, n_random=6 if thorough else 3)
     seen = p.report(ASPECTS)
     if not proved and not ctx.violations:
         ctx.violation("proof obligation of C03 no longer checks: " + (ctx.broken or "Props/C03.v"),
@@ -37,4 +37,4 @@ def run(ctx):
         rule="theorems of coq/Props/C03.v (unbounded: every configuration, every token stream); correspondence and "
              "implementation oracle on: every .vcl file of the repository x default + every single-option flip (exhaustive), "
              "focus programs x the same flips, grammar-generated programs (plain, and decorated with comments at the "
-             "documented placeholders) x default + sampled random configurations; distinct = distinct (source, configuration)")
+             "documented placeholders) x default + sampled random configurations; string literals rewritten with every kind of inner whitespace (gen/fmt_literals relit) and the exhaustive literal matrix (24 string positions x 20 whitespace features x quoted/long/delimited); distinct = distinct (source, configuration); per-dimension counts in coverage.dimensions")
